@@ -128,7 +128,8 @@ func Binding(k keeper.Keeper, ctx sdk.Context, tag, svc string, provider, owner 
 	}
 	b.Pricing = p
 	b.QoS = vf.Uint64(tag + ".qos")
-	vf.Assume(vf.And(b.QoS >= 1, b.QoS <= uint64(k.MaxRequestTimeout(ctx))))
+	// (within the maximum request timeout when it was set; the parameter may have been lowered since)
+	vf.Assume(vf.And(b.QoS >= 1, b.QoS < uint64(maxH)))
 	b.Available = vf.Bool(tag + ".available")
 	b.DisabledTime = vf.Time(tag + ".disabledTime")
 	// available bindings hold the minimum deposit (MIN) and carry no disabling time
